@@ -28,7 +28,11 @@ void harness (void)
   int A = VERIF_LE ? DBUS_LITTLE_ENDIAN : DBUS_BIG_ENDIAN, B = VERIF_LE ? DBUS_BIG_ENDIAN : DBUS_LITTLE_ENDIAN;
   in_len = nondet_int ();
   __CPROVER_assume (in_len >= 0 && in_len <= VERIF_N);
-  for (i = 0; i < VERIF_N; i++) { in_buf[i] = nondet_uchar (); orig[i] = in_buf[i]; }
+  for (i = 0; i < VERIF_N; i++) in_buf[i] = nondet_uchar ();
+#ifdef VERIF_BODY_ASSUME
+  VERIF_BODY_ASSUME        /* variants: the contained signature bytes are fixed by concrete assignments (see tool/units/c01.py) */
+#endif
+  for (i = 0; i < VERIF_N; i++) orig[i] = in_buf[i];
   body.str = in_buf; body.len = in_len; body.allocated = VERIF_N + 16; body.constant = 0; body.locked = 0; body.valid = 1; body.align_offset = 0;
   sig.str = (unsigned char *) the_sig; sig.len = sizeof (the_sig) - 1; sig.allocated = sizeof (the_sig) + 8; sig.constant = 1; sig.locked = 1; sig.valid = 1; sig.align_offset = 0;
   before = _dbus_validate_body_with_reason ((DBusString *) &sig, 0, A, NULL, (DBusString *) &body, 0, in_len);
